@@ -5,6 +5,7 @@
 package c08
 
 import (
+	"bytes"
 	"crypto/sha256"
 	"encoding/json"
 	"fmt"
@@ -187,14 +188,33 @@ type outcome struct {
 
 func (f *fixture) verify(b *pb.InternalBlock) bool { return f.verifyP(b).ok }
 
-func (f *fixture) verifyP(b *pb.InternalBlock) (o outcome) {
+func (f *fixture) verifyP(b *pb.InternalBlock) (o outcome) { return verifyOn(f.w, b) }
+
+func verifyOn(w *world.World, b *pb.InternalBlock) (o outcome) {
 	defer func() {
 		if r := recover(); r != nil {
 			o = outcome{false, fmt.Sprint(r)}
 		}
 	}()
-	ok, _ := f.w.Ledger.VerifyBlock(b, "c08")
+	ok, _ := w.Ledger.VerifyBlock(b, "c08")
 	return outcome{ok: ok}
+}
+
+// confirmedTwin is a second node of the same genesis whose ledger has confirmed
+// (a copy of) the base block; nil when the ledger does not take the block.
+func (f *fixture) confirmedTwin(blk *pb.InternalBlock) *world.World {
+	w2, err := world.New(world.DefaultConfig(), world.RegisterVKV)
+	if err != nil {
+		core.HarnessError("C08 second world: %v", err)
+	}
+	if !bytes.Equal(w2.Genesis.Blockid, f.w.Genesis.Blockid) {
+		core.HarnessError("C08: genesis of a second world differs")
+	}
+	if st := w2.Ledger.ConfirmBlock(world.CloneBlock(blk), false); !st.Succ {
+		w2.Drop()
+		return nil
+	}
+	return w2
 }
 
 // checkSingle asks single's CheckMinerMatch (on a copy: it rewrites Blockid).
@@ -324,10 +344,12 @@ type verdict struct {
 	sigValid    bool
 	verifyPanic string // VerifyBlock panicked (counted as refused)
 	singlePanic string // single.CheckMinerMatch panicked (counted as refused)
+	confirmedOK bool   // VerifyBlock on the ledger that already confirmed the base block
+	confirmedKey string
 }
 
 // judge applies one mutant to a copy of base and evaluates the oracle.
-func (f *fixture) judge(baseBlk, baseNorm *pb.InternalBlock, m *mutant, seen map[[32]byte]bool) verdict {
+func (f *fixture) judge(baseBlk, baseNorm *pb.InternalBlock, m *mutant, seen map[[32]byte]bool, confirmed *world.World) verdict {
 	b := world.CloneBlock(baseBlk)
 	m.apply(b)
 	switch m.fix {
@@ -374,11 +396,23 @@ func (f *fixture) judge(baseBlk, baseNorm *pb.InternalBlock, m *mutant, seen map
 	case sBad:
 		v.key = "c08.single." + m.key
 	}
+	// second stage, differential: the same candidate offered to a ledger that
+	// has already confirmed the base block (its id, header and transactions are
+	// in the block cache and in the tables). Holding the honest twin is no
+	// reason to accept a tampered one: the verdict may not turn to "accepted".
+	if confirmed != nil && m.expect != free {
+		co := verifyOn(confirmed, b)
+		v.confirmedOK = co.ok
+		if co.ok && !vo.ok {
+			v.confirmedKey = "c08.accepted_only_after_base_confirmed:" + m.class
+		}
+	}
 	return v
 }
 
 type stats struct {
 	evals, mutants, noops, dups, verifyAcc, verifyRef, singleAcc, singleRef int
+	twins, twinEvals, twinAcc                                               int
 	perClass                                                                map[string][2]int // class -> [accepted, refused] at VerifyBlock
 	freeAccepted                                                            map[string]int    // unhashed paths accepted (outside the statement)
 	viol                                                                    map[string]int
@@ -399,6 +433,9 @@ func (s *stats) merge(o *stats) {
 	s.verifyRef += o.verifyRef
 	s.singleAcc += o.singleAcc
 	s.singleRef += o.singleRef
+	s.twins += o.twins
+	s.twinEvals += o.twinEvals
+	s.twinAcc += o.twinAcc
 	for k, v := range o.perClass {
 		c := s.perClass[k]
 		c[0] += v[0]
@@ -555,8 +592,17 @@ func run(tier core.Tier) *core.Report {
 				}
 				baseNorm := normalise(world.CloneBlock(blk))
 				seen := map[[32]byte]bool{}
+				twin := f.confirmedTwin(blk)
+				if twin != nil {
+					loc.twins++
+					if !verifyOn(twin, blk).ok {
+						offer(Case{Base: s}, core.Violation{Key: "c08.confirmed_block_refused", Summary: fmt.Sprintf("block (%v) is refused by VerifyBlock of the ledger that confirmed it", s),
+							Expected: "a confirmed block still verifies", Observed: "refused"})
+						loc.viol["c08.confirmed_block_refused"]++
+					}
+				}
 				for _, m := range f.mutants(blk, s, tier) {
-					v := f.judge(blk, baseNorm, m, seen)
+					v := f.judge(blk, baseNorm, m, seen, twin)
 					if v.noop {
 						loc.noops++
 						continue
@@ -595,12 +641,30 @@ func run(tier core.Tier) *core.Report {
 					if v.singlePanic != "" {
 						loc.notePanic("single.CheckMinerMatch: "+v.singlePanic, Case{Base: s, Mutant: m.id}, 1)
 					}
+					if twin != nil && m.expect != free {
+						loc.evals++
+						loc.twinEvals++
+						if v.confirmedOK {
+							loc.twinAcc++
+						}
+					}
+					if v.confirmedKey != "" {
+						loc.viol[v.confirmedKey]++
+						offer(Case{Base: s, Mutant: m.id}, core.Violation{Key: v.confirmedKey,
+							Summary:  fmt.Sprintf("base block (%v), mutant %q [%s]: VerifyBlock refuses it on a ledger that has not seen the base block and accepts it on a ledger that confirmed the base block", s, m.id, m.what),
+							Expected: "refused: " + m.why + " (having confirmed the honest block changes nothing)", Observed: "accepted once the base block is confirmed"})
+					}
 					if v.key != "" {
 						loc.viol[v.key]++
 						offer(Case{Base: s, Mutant: m.id}, core.Violation{Key: v.key,
 							Summary:  fmt.Sprintf("base block (%v), mutant %q [%s]: VerifyBlock accepted=%v, single.CheckMinerMatch accepted=%v", s, m.id, m.what, v.verifyOK, v.singleOK),
 							Expected: "refused: " + m.why, Observed: "accepted"})
 					}
+				}
+				if twin != nil {
+					twin.State.Close()
+					twin.Ledger.Close()
+					twin.Drop()
 				}
 			}
 			mu.Lock()
@@ -645,6 +709,7 @@ func run(tier core.Tier) *core.Report {
 	rep.Set("evaluations", total.evals)
 	rep.Set("distinct_nontrivial", total.mutants)
 	rep.Set("rule", "cases = base blocks {n transactions} x {justify none/0/1/3 sigs} x {failed-tx entries} x {target bits} formatted by Ledger.FormatMinerBlock (+ FormatBlock), times every single mutation: reflection walk over every InternalBlock / QuorumCert / SignInfo field (ints +1 -1 =0 neg bit20; bytes and strings bit flips, append, drop first/last, empty; structure drop/dup/swap), failed-tx map edits, field-boundary shifts between adjacent variable-length hashed fields, every tx dropped / swapped with every other / duplicated at every position / replaced / foreign tx at every position / txid altered / tail duplicated, merkle tree edits, every signature bit flipped, re-signing by another key; body mutants raw, with merkle+count recomputed, and with the id recomputed too; header mutants raw and with the id recomputed; a mutant is non-trivial when it differs from its base in content (no-op edits are skipped and counted apart) and distinct when no other edit of the same base produced the same block (duplicates skipped and counted apart)")
+	rep.Set("after_base_confirmed", fmt.Sprintf("%d base blocks confirmed on a second ledger of the same genesis; %d mutants offered to it as well (%d accepted there); oracle: none accepted there that the fresh ledger refuses", total.twins, total.twinEvals, total.twinAcc))
 	rep.Set("noop_mutants_skipped", total.noops)
 	rep.Set("duplicate_mutants_skipped", total.dups)
 	rep.Set("verify_block_accepted", total.verifyAcc)
@@ -720,18 +785,19 @@ func replay(raw json.RawMessage) (bool, string, error) {
 		if m.id != want {
 			continue
 		}
-		v := f.judge(blk, baseNorm, m, nil)
+		twin := f.confirmedTwin(blk)
+		v := f.judge(blk, baseNorm, m, nil, twin)
 		if v.noop {
 			return false, "mutant is a no-op on this base", nil
 		}
-		msg := fmt.Sprintf("base %v mutant %q [%s]: VerifyBlock accepted=%v single accepted=%v key=%s", c.Base, m.id, m.what, v.verifyOK, v.singleOK, v.key)
+		msg := fmt.Sprintf("base %v mutant %q [%s]: VerifyBlock accepted=%v single accepted=%v key=%s; on a ledger that confirmed the base block: accepted=%v key=%s", c.Base, m.id, m.what, v.verifyOK, v.singleOK, v.key, v.confirmedOK, v.confirmedKey)
 		if v.verifyPanic != "" {
 			msg += " VerifyBlock panicked: " + v.verifyPanic
 		}
 		if v.singlePanic != "" {
 			msg += " single.CheckMinerMatch panicked: " + v.singlePanic
 		}
-		return v.key != "", msg, nil
+		return v.key != "" || v.confirmedKey != "", msg, nil
 	}
 	return false, "", fmt.Errorf("mutant %q does not exist for base %v", c.Mutant, c.Base)
 }
